@@ -22,10 +22,11 @@ ASSUMPTIONS = [
 ]
 # shards = (configuration, part of the table)
 CONFIGS = {
-    "quick": [("all", 0, 3), ("all", 1, 3), ("all", 2, 3), (["si"], 0, 1), (["si", "us"], 0, 1), (["si", "iec"], 0, 1)],
+    "quick": [("all", 0, 3), ("all", 1, 3), ("all", 2, 3), (["si"], 0, 1), (["si", "us"], 0, 1), (["si", "iec"], 0, 1), ("staged", 0, 1)],
     "thorough": [("all", i, 6) for i in range(6)] + [(["si"], 0, 1), (["si", "us"], 0, 1), (["si", "iec"], 0, 1), (["si", "energy"], 0, 1),
                                                      (["si", "astronomical", "natural"], 0, 1), (["si", "avoirdupois", "troy", "metric"], 0, 1),
-                                                     (["si", "iso", "eu", "fff", "apocrypha", "computing"], 0, 1), (["si", "us", "iec", "energy", "music", "acoustics", "electronics"], 0, 1)],
+                                                     (["si", "iso", "eu", "fff", "apocrypha", "computing"], 0, 1), (["si", "us", "iec", "energy", "music", "acoustics", "electronics"], 0, 1),
+                                                     ("staged", 0, 1), ("staged", 1, 1)],
 }
 SHARDS = {k: len(v) for k, v in CONFIGS.items()}
 R9 = Fraction(1, 10**9)
@@ -62,16 +63,50 @@ def classify_unit_str(m, u, parsed_to=None):
 
 
 
+STAGES = [["si"], ["us", "iec"], ["energy", "avoirdupois", "troy"], ["astronomical", "natural", "metric"],
+          ["iso", "eu", "fff", "apocrypha", "computing", "acoustics", "electronics", "music", "geometry", "physics"]]
+
+
 def run(ctx):
     config, part, parts = CONFIGS[ctx.tier][ctx.shard] if ctx.nshards > 1 else ("all", 0, 1)
-    env = kit.Env(ctx, modules=config)
+    if config != "staged":
+        env = kit.Env(ctx, modules=config)
+        return one_configuration(ctx, env, config, part, parts)
+    # a process whose set of imported unit modules GROWS: everything rendered and parsed in an earlier
+    # stage (e.g. 'hh' as hecto-hour while only si is imported) must not change what a later stage's units
+    # parse to (us.Hand has the symbol 'hh')
+    import importlib
+
+    from .. import gen
+    stages = list(STAGES)
+    if part == 1:
+        ctx.rng.shuffle(stages)
+        stages = [["si"]] + [st for st in stages if st != ["si"]]
+    env = kit.Env(ctx, modules=stages[0])
+    imported = list(stages[0])
+    for k, mods in enumerate(stages):
+        if k:
+            for name in mods:
+                importlib.import_module(f"measured.{name}")
+                env.b.modules.append(name)
+            imported += mods
+            env.orc = oracle.Oracle(env.b.measured, env.b.decls, env.b.scales)
+            env.pools = gen.Pools(env.b, env.mdl, env.orc)
+        ctx.count("staged_import_stages")
+        one_configuration(ctx, env, list(imported), 0, 1, label=f"staged:{'+'.join(imported)}", products=ctx.scale(3000, 300_000) // len(stages))
+    for e in ctx.known:
+        if e.get("status") == "known":
+            ctx.witness(e["key"], ctx.known_hits.get(e["key"], 0) > 0)
+
+
+def one_configuration(ctx, env, config, part, parts, label=None, products=None):
     m, mdl, pools, rng, orc = env.m, env.mdl, env.pools, ctx.rng, env.orc
     Unit, Q = m.Unit, m.Quantity
     from measured import formatting
     from measured.parsing import ParseError
 
-    cfg_name = "all" if config == "all" else "+".join(config)
-    ctx.count(f"configurations/{cfg_name}")
+    cfg_name = label or ("all" if config == "all" else "+".join(config))
+    ctx.count(f"configurations/{cfg_name.split(':')[0]}")
     prefixes = [(None, m.IdentityPrefix)] + [(n, pools.prefixes[n]) for n in pools.prefix_names]
     units = [(n, pools.units[n]) for n in pools.unit_names if pools.units[n] is not m.One]
 
@@ -136,7 +171,7 @@ def run(ctx):
     ctx.cov["exhaustive_table_per_configuration"] = True
 
     # ---- random products, quantities, spellings ---------------------------------------------------
-    n = ctx.scale(3000, 300_000)
+    n = products if products is not None else ctx.scale(3000, 300_000)
     for i in range(n):
         factors = pools.random_factors(rng, max_factors=3, max_exp=3, hostile=0.1, prefix_prob=0.5)
         term = pools.factors_term(factors)
